@@ -39,12 +39,24 @@ inductive Op where
   | accept (connId : Nat) (port : Nat)
   | request (connId : Nat) (req : Req)
   | close (connId : Nat)
+  /-- the host ends the upstream connection that was opened for this client connection -/
+  | hostCloses (connId : Nat)
   deriving Repr
+
+/-- a client connection has ONE upstream connection, opened when it was accepted (`TcpConnectionContext::new`,
+`build_http_sender`); once the host has closed it, whatever would have been relayed is answered 502 instead and nothing is
+sent (`send_request` fails with `HostConnection`); refusals are what they would have been -/
+def afterHostClose (r : Result) : Result :=
+  match r.outcome with
+  | .forward _ => { r with outcome := .respond 502 }
+  | _ => r
 
 structure Server where
   audit : AuditMap
   /-- live connections: id ↦ immutable context -/
   conns : List (Nat × Conn)
+  /-- connections whose upstream connection the host has closed -/
+  hostClosed : List Nat := []
   deriving Repr
 
 def ctxOf (s : Server) (id : Nat) : Option Conn :=
@@ -57,12 +69,13 @@ def step (mac : Str → List UInt8 → Str) (env : Env) (s : Server) : Op → Se
   | .kernelRecord p r => ({ s with audit := record s.audit p r }, none)
   | .accept id p =>
     let (m', c) := accept s.audit p
-    ({ audit := m', conns := (id, c) :: s.conns.filter (fun kv => kv.1 ≠ id) }, none)
+    ({ audit := m', conns := (id, c) :: s.conns.filter (fun kv => kv.1 ≠ id), hostClosed := s.hostClosed.filter (· ≠ id) }, none)
   | .request id req =>
     match ctxOf s id with
-    | some c => (s, some (handle mac env c req))
+    | some c => (s, some (if s.hostClosed.contains id then afterHostClose (handle mac env c req) else handle mac env c req))
     | none => (s, none)
-  | .close id => ({ s with conns := s.conns.filter (fun kv => kv.1 ≠ id) }, none)
+  | .close id => ({ s with conns := s.conns.filter (fun kv => kv.1 ≠ id), hostClosed := s.hostClosed.filter (· ≠ id) }, none)
+  | .hostCloses id => ({ s with hostClosed := id :: s.hostClosed }, none)
 
 def run (mac : Str → List UInt8 → Str) (env : Env) (s : Server) : List Op → Server × List (Option Result)
   | [] => (s, [])
